@@ -196,8 +196,8 @@ func run(c *mon.Ctx) {
 
 	c.Exhaustive("CanClose: 256 x 256 types x event 2 x PTS 2 x 8 (segment_num, segments_expected) pairs (equal, below, above, zero) x 3 sub-segment variants", 256*256*96)
 	c.Floor("concurrent.calls", 20000)
-	c.Stream("concurrent-callers", c.N(3, 150), func(i int, r *gen.Rand) {
-		c.Concurrent("CanClose / Equal / IsIn / IsOut on descriptors of their own", 8, 1500, r, func(q *gen.Rand) string {
+	c.Stream("concurrent-callers", c.N(8, 200), func(i int, r *gen.Rand) {
+		c.Concurrent("CanClose / Equal / IsIn / IsOut on descriptors of their own", 8, 6000, r, func(q *gen.Rand) string {
 			a := attrs{Type: q.Byte(), Event: uint32(1 + q.Intn(2)), PTS: uint64(1000 + 1000*q.Intn(2)), HasPTS: true, SegNum: byte(q.Intn(3)), SegExp: byte(q.Intn(3)), Noise: q.Uint32() | 1}
 			b := attrs{Type: q.Byte(), Event: uint32(1 + q.Intn(2)), PTS: uint64(1000 + 1000*q.Intn(2)), HasPTS: true, SegNum: byte(q.Intn(3)), SegExp: byte(q.Intn(3)), Noise: q.Uint32() | 1}
 			if q.Bool() {
